@@ -7,12 +7,19 @@
     c13.subst <nf> <filter>… <src hex> | ok <hex> | panic:<kind> | cfg-rejected
         filter: cut first|last <n> | trimto all|left|right <hex> | trim all|left|right <hex>
               | re <limit> <sep hex> <0|1> <ng> <g>… <re hex> <nsub> <nm> (<2(nsub+1) ints>)…
+    c13.rename <preserve> <n> (<plen> <key>… <name>)… <JTree> | ok <JTree>
+    c13.move allow <tlen> <key>… <nf> (<plen> <key>…)… <JTree> | ok <JTree>
+    c13.move block <target key> <nb> <key>… <JTree> | ok <JTree>
+    c13.tok <mask 1..63> <data hex> | ok <hex>   hash normalizer with the by-bytes patterns of mask
     c13.utf8 <n> <src hex>×n | ok <hex>×n      (n fields of one event)
 -/
 import FileD.Prelude.Tok
 import FileD.Spec.C13
 import FileD.Model.Act.Subst
 import FileD.Model.Act.Utf8Bytes
+import FileD.Model.Act.HashTok
+import FileD.Model.Act.Fields
+import FileD.Prelude.JTree
 namespace FileD.DrvC13
 open FileD Tok
 
@@ -106,6 +113,73 @@ def handleUtf8 (args impl : List String) : Option (String × String) := do
   let m := if outs.all Option.isSome then unwords ("ok" :: outs.filterMap id) else panicTok .bounds
   pure (m, okTok (SpecC13.coreOk impl))
 
+/-- c13.tok <mask> <data hex>: bit (p-1) of mask enables pattern p -/
+def handleTok (args impl : List String) : Option (String × String) :=
+  match args with
+  | [mk, dh] => do
+    let mask ← nat? mk
+    let data ← bytes? dh
+    let has : Nat → Bool := fun p => p ≥ 1 && (mask >>> (p - 1)) % 2 == 1
+    pure (resTok (Act.HashTok.normalize has data), okTok (SpecC13.coreOk impl))
+  | _ => none
+
+def takePath (ts : List String) : Option (List Bytes × List String) := listOf bytes? ts
+
+def takePairs : Nat → List String → Option (List (List Bytes × Bytes) × List String)
+  | 0, ts => some ([], ts)
+  | n + 1, ts => do
+    let (p, r) ← takePath ts
+    match r with
+    | nm :: r1 => do
+      let name ← bytes? nm
+      let (ps, r2) ← takePairs n r1
+      pure ((p, name) :: ps, r2)
+    | [] => none
+
+def takePaths : Nat → List String → Option (List (List Bytes) × List String)
+  | 0, ts => some ([], ts)
+  | n + 1, ts => do
+    let (p, r) ← takePath ts
+    let (ps, r2) ← takePaths n r
+    pure (p :: ps, r2)
+
+def treeTok (t : JTree) : String := "ok " ++ t.enc
+
+def handleRename (args impl : List String) : Option (String × String) :=
+  match args with
+  | pv :: nn :: rest => do
+    let preserve ← bool? pv
+    let n ← nat? nn
+    let (pairs, r) ← takePairs n rest
+    let (tree, r2) ← JTree.parse? r
+    if r2 ≠ [] then none
+    pure (treeTok (Act.Fields.rename preserve pairs tree), okTok (SpecC13.coreOk impl))
+  | _ => none
+
+def handleMove (args impl : List String) : Option (String × String) :=
+  match args with
+  | "allow" :: rest => do
+    let (target, r) ← takePath rest
+    match r with
+    | nn :: r1 => do
+      let n ← nat? nn
+      let (fields, r2) ← takePaths n r1
+      let (tree, r3) ← JTree.parse? r2
+      if r3 ≠ [] then none
+      let m := match Act.Fields.moveAllow target fields tree with
+        | .ok t => treeTok t
+        | .error p => panicTok p
+      pure (m, okTok (SpecC13.coreOk impl))
+    | [] => none
+  | "block" :: tk :: nn :: rest => do
+    let tkey ← bytes? tk
+    let n ← nat? nn
+    let (blocked, r) ← (Tok.listOf bytes? (toString n :: rest))
+    let (tree, r2) ← JTree.parse? r
+    if r2 ≠ [] then none
+    pure (treeTok (Act.Fields.moveBlock tkey blocked tree), okTok (SpecC13.coreOk impl))
+  | _ => none
+
 def handle (cmd : String) (args impl : List String) : Option (String × String) :=
   if cmd = "c13.act" then
     some (unwords impl, okTok (SpecC13.actOk impl))
@@ -113,6 +187,9 @@ def handle (cmd : String) (args impl : List String) : Option (String × String) 
     some (unwords args, okTok (args == impl))
   else if cmd = "c13.subst" then handleSubst args impl
   else if cmd = "c13.utf8" then handleUtf8 args impl
+  else if cmd = "c13.tok" then handleTok args impl
+  else if cmd = "c13.rename" then handleRename args impl
+  else if cmd = "c13.move" then handleMove args impl
   else none
 
 end FileD.DrvC13
